@@ -12,7 +12,7 @@ model's fragment):
                                     panic or a timeout although the checker accepted the program
                `engines-differ`     interpreter observation ≠ VM observation
   copysem      `copy-aliased`       the dump of the untouched side differs before / after the mutations
-  resown       `uuid-twice`, `resource-lost`, `destroy-event-count`  (see `judgeResown`)
+  resown       `moved-resource-still-usable`, `uuid-twice`, `resource-lost`, `resource-duplicated`, … (see `resCensus`)
   refinv       `stale-reference-usable`, `valid-reference-unusable`  (see `judgeRefinv`)
 Then the model: the S-expression of the checked program is read and run; its observation must equal
 the interpreter's.
@@ -122,6 +122,11 @@ def destroyedTags (evs : List String) : List String :=
 /-- C02 census on one engine's observation of a completed run: every created tag exactly once among
     the resources found in storage and the destruction events; no uuid twice -/
 def resCensus (o : Obs) (engine : String) : Option Verdict :=
+  -- probe programs: the use of a moved resource's old location (through a reference taken before the
+  -- move) must fail; the program logs "=stale" when it did not
+  if o.logs.contains "\"=stale\"" then
+    some (.violation "moved-resource-still-usable" ("the use of a moved resource through its old location fails (" ++ engine ++ ")") [])
+  else
   if !o.out.startsWith "ok:" then none else
   let created := (afterMarker o.logs "\"C\"" 1).map (·.headD "?")
   let walked := afterMarker o.logs "\"W\"" 2
